@@ -987,3 +987,16 @@ CASES["C03"] += [
 CASES["C11"] += [
     ("reintroduce F-59 (minimalloc offsets added to an unaligned memory.start)", "mutant", "snaxc/transforms/snax_allocate.py", "@revert:8c368e2~1", "", ["C11.lifetime"]),
 ]
+# session of 2026-09-26 22:00 UTC (round 9)
+CASES["C12"] += [
+    ("twin: transpose spelled np.moveaxis(x, order, range(n))", "twin", "snaxc/transforms/realize_memref_casts.py",
+     "values = values.reshape(bounds).transpose(order[::-1])", "values = np.moveaxis(values.reshape(bounds), order[::-1], range(len(bounds)))", []),
+    ("inverse permutation: np.moveaxis(x, range(n), order)", "mutant", "snaxc/transforms/realize_memref_casts.py",
+     "values = values.reshape(bounds).transpose(order[::-1])", "values = np.moveaxis(values.reshape(bounds), range(len(bounds)), order[::-1])", ["C12.const-permutation"]),
+]
+CASES["C20"] += [
+    ("valid_mapping passes over the terminator", "mutant", "snaxc/phs/decode.py",
+     "            abst_op = abstract_graph.get_terminator()\n", "            abst_op = abstract_graph.get_terminator()\n            continue\n", ["C20.valid-mapping"]),
+    ("rerouting by value (replace_uses_with_if on the consumer)", "mutant", "snaxc/phs/combine.py",
+     "            abst_op.operands[i] = mux.results[0]", "            abst_opnd.replace_uses_with_if(mux.results[0], lambda use: use.operation is abst_op)", ["C20.merge"]),
+]
